@@ -153,6 +153,38 @@ def main(argv):
                    "(fun '(a, b, s) => pair_model a b s)", pair_oracle, group_oracle=pair_group_oracle,
                    nontrivial=lambda c, o: any(r[0] in (5, 8) for r in o["rows"]), theorems_note=THEOREMS,
                    strip=lambda c: {"a": c["a"], "b": c["b"], "sched": c["sched"]})
+    # foreign peers (a ZMTP/2.0 or ZMTP/3 endpoint that is not rzmq): honest transcripts - greeting, READY / identity frame with
+    # routing ids up to 255 bytes, data right behind - delivered all at once, cut around the end of the handshake, byte by
+    # byte and in random fragments to ONE real engine; a compatible peer must complete under every fragmentation and
+    # every fragmentation must report the same peer (added after the seeded change C05-greeting-fast-path-assumes-v3)
+    from . import c04
+    fcs = c04.gen_cases(random.Random(seed * 31 + 5), 150 if tier == "quick" else 2500)
+
+    def foreign_oracle(c, o):
+        if o.get("panicked"):
+            return "engine panicked on an honest peer transcript"
+        _, other = E.deliveries(o["rows"])
+        if not any(r[0] == 5 for r in other):
+            return ("a compatible %s peer did not complete the handshake under fragmentation %s (handshake is %d bytes)"
+                    % (c["kind"], c["cuts"][:6], c["hs_len"]))
+        if any(r[0] in (8, 9) for r in other):
+            return "a compatible %s peer was refused under fragmentation %s" % (c["kind"], c["cuts"][:6])
+        return None
+
+    def foreign_group(cases_, obs_):
+        fails, first = [], {}
+        for i, (c, o) in enumerate(zip(cases_, obs_)):
+            hs = [r for r in o["rows"] if r and r[0] == 5]
+            if c["group"] in first and first[c["group"]] != hs:
+                fails.append((i, "the handshake result for the same peer bytes depends on the fragmentation"))
+            first.setdefault(c["group"], hs)
+        return fails
+
+    for c in fcs:
+        res.count("foreign:%s" % c["kind"])
+    C.differential(res, PROP, "eng", fcs, E.case_coq, E.REQ, "eng_mismatches", "(fun '(c, o, i) => eng_model c o i)",
+                   foreign_oracle, group_oracle=foreign_group, nontrivial=lambda c, o: True, strip=c04.strip, tag="foreign",
+                   theorems_note="C05_converge (engine as a prefix-monotone stream function), C04_engine chunk independence")
     tcs = type_cases(tier, rng)
     # kind-E tie: pairing tables regenerated from the Rust sources must equal the model's; when they do not, the
     # pairs on which they differ are searched for a failing input on real sockets
